@@ -16,12 +16,17 @@
    The thread-level model CLConc.v (visible actions on the list mutex and currentCounter; the
    traversal steps node = node->next under the mutex and reads the visited node's fields
    outside it) is replayed step for step against the real CallbackList under the cooperative
-   scheduler.  NOT mechanised: that every execution of the instruction machine CLConc projects to
-   such a sequence of sections and traversal steps (it does because the sections are mutually
-   exclusive and everything else a call does is thread-local), the EventDispatcher's map of lists (tie A: lock scopes), and
-   data-race freedom of the real code (ThreadSanitizer in the thorough tier). *)
+   scheduler, and every execution of that machine is proved to be such a sequence of sections
+   (CLConcProj.v, theorems C03_every_execution_* below): for every set of thread programs, every schedule and every number
+   of steps, the machine's list is the run of the sections it executed, in the order in which it executed them; unless the
+   32-bit counter wrapped to zero (C19), content and results are those of the sequential specification in that order; the
+   order contains the calls of every finished thread in program order, and what a thread reported are the results of its
+   own sections.  NOT mechanised: the projection of the machine's traversal steps onto CLTrav's events (the traversal
+   theorem is about every sequence of such events), real-time order beyond the shape of the code (C03_section_inside_call),
+   the EventDispatcher's map of lists (tie A: lock scopes), and data-race freedom of the real code (ThreadSanitizer in the
+   thorough tier). *)
 From Coq Require Import List Arith NArith ZArith Bool.
-From EV Require Import CLModel CLHeap CLConcProofs CLConc.
+From EV Require Import CLModel CLHeap CLConcProofs CLConc CLConcProj.
 From EV.gen Require GenCL.
 Import ListNotations.
 
@@ -41,6 +46,66 @@ Theorem C03_one_section_refines :
 Proof. exact section_refines. Qed.
 Print Assumptions C03_one_section_refines.
 
+(* ---------- every execution of the thread-level machine is a sequence of sections (CLConcProj.v) ---------- *)
+(* for every set of thread programs, every schedule, every number of steps: the list the machine holds is what the
+   sections it executed (recorded in the ghost lsecs), run one after the other in the order in which they were executed,
+   make of the empty list, and the recorded results are the results of that run *)
+Theorem C03_every_execution_is_the_run_of_its_sections :
+  forall progs sch fuel,
+    let s := fst (lrun fuel ls0 (lstart progs) sch) in
+    run_secs empty_group (secs_of s) = (lgrp s, results_of s).
+Proof. exact machine_list_is_the_run_of_its_sections. Qed.
+Print Assumptions C03_every_execution_is_the_run_of_its_sections.
+
+(* unless the 32-bit counter wrapped to zero, the list is well formed and content and results are those of the sequential
+   list specification executed in the order of the sections: each callback removed successfully at most once, none lost
+   or duplicated, final order that of the sequential execution *)
+Theorem C03_every_execution_linearizes :
+  forall progs sch fuel,
+    let s := fst (lrun fuel ls0 (lstart progs) sch) in
+    ~ wrapped s ->
+    GInv (lgrp s) (fst (spec_secs 0 [] (secs_of s))) /\ results_of s = snd (spec_secs 0 [] (secs_of s)).
+Proof. exact every_execution_linearizes. Qed.
+Print Assumptions C03_every_execution_linearizes.
+
+(* the order of the sections contains the calls of every finished thread in program order — one section per adding /
+   removing / querying call, of the call's kind and callback — and the results the thread reported are, in order, the
+   results of its removing / querying sections *)
+Theorem C03_sections_follow_program_order :
+  forall progs sch fuel t th,
+    let s := fst (lrun fuel ls0 (lstart progs) sch) in
+    nth_error (snd (lrun fuel ls0 (lstart progs) sch)) t = Some th -> lfin th = true ->
+    Forall2 call_sec (filter has_sec (prog progs t)) (rev (map esec (tsecs t s))) /\
+    rl t s = map eres (filter (fun e => negb (adds (esec e))) (tsecs t s)).
+Proof. exact sections_of_a_finished_thread_are_its_calls_in_program_order. Qed.
+Print Assumptions C03_sections_follow_program_order.
+
+(* a call's section stands between the call's first action and its end marker *)
+Theorem C03_section_inside_call :
+  forall c, has_sec c = true ->
+    exists pre b x post, lcode_of c = pre ++ do_sec b x :: post /\
+                         existsb ends_call pre = false /\ existsb ends_call post = true.
+Proof. exact section_inside_call. Qed.
+Print Assumptions C03_section_inside_call.
+
+(* the invariant behind these statements, for reference: GI (list = replay of the record, results, counters) and, per
+   thread, the rely/guarantee assertion in front of its next instruction *)
+Theorem C03_projection_invariant_every_schedule :
+  forall progs fuel sch,
+    Inv progs (fst (lrun fuel ls0 (lstart progs) sch)) (snd (lrun fuel ls0 (lstart progs) sch)).
+Proof. exact projection_every_schedule. Qed.
+Print Assumptions C03_projection_invariant_every_schedule.
+
+Example C03_projection_example :
+  let r := lrun 400 ls0 (lstart proj_progs) proj_sched in
+  forallb lfin (snd r) = true /\
+  existsb (fun a => match a with LaInc _ 0%N => true | _ => false end) (llog (fst r)) = false /\
+  secs_of (fst r) = [SBack 1 1; SRemove (Some 0); SBefore 4 2 None; SBack 2 3; SBack 3 4; SOwns (Some 0); SEmpty; SRemove (Some 0)] /\
+  results_of (fst r) = [true; true; true; true; true; false; false; false] /\
+  fst (spec_secs 0 [] (secs_of (fst r))) = [1; 2; 3] /\
+  snd (lc_run_case 400 proj_progs proj_sched) = [4; 2; 3].
+Proof. exact projection_example. Qed.
+
 (* non-vacuity: an interleaving in which thread 1 removes the node thread 0's traversal stands on *)
 Example C03_example :
   let '(tr, fin) := lc_run_case 600 [[LAppend 1 0; LAppend 2 1; LInvoke 7%Z]; [LRemove 0; LAppend 3 2; LRemove 0]]
@@ -48,33 +113,31 @@ Example C03_example :
   fin = [2; 3] /\ existsb (fun a => match a with LaRes 1 false => true | _ => false end) tr = true.
 Proof. vm_compute. split; reflexivity. Qed.
 
-(* Lock scopes read off the headers (tie A, tools/leaves/locks.py): for every member function, the
-   accesses to the shared structure made OUTSIDE the scope of a named guard on its mutex.
+(* Lock scopes read off the headers (tie A, tools/leaves/locks.py): the member functions that reach the shared
+   structure OUTSIDE the scope of a named guard on its mutex.  "f#*": f never takes the mutex; "f#n": f takes it and
+   still reaches the member n times outside its guards.  A non-public member function that takes no lock itself and
+   is called by other member functions (the link helpers doAppend / doInsert / doFreeNode, cloneFrom, doFreeAllNodes, or
+   one a refactoring introduces) is not listed: it runs under its caller's lock, and each call of it made outside a
+   guard is counted as an access of the caller.
    What is listed is, entry by entry:
-   * constructor / operator= / swap / cloneFrom / doFreeAllNodes: construction, assignment, swap and
-     destruction of a whole list or dispatcher — not among the operations C03 names (an object must
-     not be assigned or destroyed while other threads use it);
-   * doAppend / doInsert / doFreeNode: the private link helpers; they are entered with the caller's
-     lock held — the last three lists say that NO call to them is outside a guard;
-   * empty#1: `empty()` reads `head` without the mutex (a single shared_ptr read; a racy answer is
-     allowed by the sequential-execution reading only in that it is the answer of SOME instant —
-     recorded here as it is in the header).
-   Every lookup in the dispatcher's map (dispatch, removeListener, hasAnyListener, ownsHandle,
-   forEach) and every registration is inside a guard: none of them appears. *)
+   * constructor / destructor / operator= / swap: construction, assignment, swap and destruction of a whole list or
+     dispatcher — not among the operations C03 names (an object must not be assigned or destroyed while other threads
+     use it);
+   * empty: `empty()` reads `head` without the mutex (a single shared_ptr read; CLSec.SEmpty models it as one read).
+   append, prepend, insert, remove, ownsHandle, the traversals, and every lookup in the dispatcher's map (dispatch,
+   removeListener, hasAnyListener, ownsHandle, forEach) and every registration do not appear: all they do to the
+   structure, directly or through a helper, is inside a guard. *)
 From Coq Require Import String.
 From EV.gen Require GenLocks.
 Local Open Scope string_scope.
 
 Theorem C03_lock_scopes_are_the_reviewed_ones :
-  GenLocks.dispatcher_map_unguarded = ["constructor#2"; "operator=#4"; "swap#2"] /\
-  GenLocks.heter_dispatcher_map_unguarded = ["constructor#2"; "operator=#4"; "swap#2"] /\
-  GenLocks.list_head_unguarded = ["cloneFrom#1"; "constructor#1"; "doAppend#2"; "doFreeAllNodes#2"; "doFreeNode#2"; "doInsert#2"; "empty#1"; "operator=#2"; "swap#2"] /\
-  GenLocks.list_tail_unguarded = ["cloneFrom#1"; "doAppend#4"; "doFreeNode#2"; "operator=#2"; "swap#2"] /\
-  GenLocks.list_next_unguarded = ["cloneFrom#2"; "doAppend#1"; "doFreeAllNodes#2"; "doFreeNode#5"; "doInsert#2"] /\
-  GenLocks.list_previous_unguarded = ["cloneFrom#1"; "doAppend#1"; "doFreeAllNodes#1"; "doFreeNode#5"; "doInsert#5"] /\
-  GenLocks.list_doappend_calls_unguarded = [] /\
-  GenLocks.list_doinsert_calls_unguarded = [] /\
-  GenLocks.list_dofreenode_calls_unguarded = [].
+  GenLocks.dispatcher_map_unguarded = ["constructor#*"; "operator=#*"; "swap#*"] /\
+  GenLocks.heter_dispatcher_map_unguarded = ["constructor#*"; "operator=#*"; "swap#*"] /\
+  GenLocks.list_head_unguarded = ["constructor#*"; "destructor#*"; "empty#*"; "operator=#*"; "swap#*"] /\
+  GenLocks.list_tail_unguarded = ["constructor#*"; "operator=#*"; "swap#*"] /\
+  GenLocks.list_next_unguarded = ["constructor#*"; "destructor#*"; "operator=#*"] /\
+  GenLocks.list_previous_unguarded = ["constructor#*"; "destructor#*"; "operator=#*"].
 Proof. repeat split; reflexivity. Qed.
 Print Assumptions C03_lock_scopes_are_the_reviewed_ones.
 
